@@ -28,6 +28,7 @@ EXPLANATION = (
     "the complement of `_stopping and failure.check(CancelledError)`. Scheduling sites are classified by the entry "
     "points that can reach them in the class call/registration graph."
 )
+SHARED = [('C03', ['R2'], 'the processor is not invoked again once stop() has begun')]
 ASSUMPTIONS = [
     "Twisted: cancel() of an unfired Deferred errbacks CancelledError through its chain synchronously",
     "IDelayedCall.cancel()/LoopingCall.stop() prevent further calls",
